@@ -380,6 +380,37 @@ func c17Subjects() []c17Subject {
 				}}), drainBag(bag)
 		}},
 	)
+	// the exported partition objects used on their own (a caller may keep them and read or drive them directly)
+	partMethods := func(p interface {
+		UpdateLimit(int32)
+		Limit() int
+		BusyCount() int
+		IsLimitExceeded() bool
+		Acquire()
+		Release()
+		Name() string
+		Percent() float64
+		String() string
+	}) []c17Method {
+		return []c17Method{
+			{"UpdateLimit", true, func(g, a int) { p.UpdateLimit(int32(1 + a%100)) }},
+			{"AcquireRelease", true, func(g, a int) { p.Acquire(); p.Release() }},
+			{"Accessors", false, func(g, a int) { _, _, _, _, _ = p.BusyCount(), p.Limit(), p.Name(), p.Percent(), p.IsLimitExceeded() }},
+			{"String", false, func(g, a int) { _ = p.String() }},
+		}
+	}
+	subs = append(subs,
+		c17Subject{"lookup-partition-object", func() ([]c17Method, func()) {
+			r := reg()
+			ms := partMethods(strategy.NewLookupPartitionWithMetricRegistry("a", 0.3, 1, r))
+			return append(ms, c17Method{"PollGauges", false, func(g, a int) { r.(*recRegistry).pollAll() }}), func() {}
+		}},
+		c17Subject{"predicate-partition-object", func() ([]c17Method, func()) {
+			r := reg()
+			ms := partMethods(strategy.NewPredicatePartitionWithMetricRegistry("a", 0.3, matchers.StringPredicateMatcher("a", false), r))
+			return append(ms, c17Method{"PollGauges", false, func(g, a int) { r.(*recRegistry).pollAll() }}), func() {}
+		}},
+	)
 	// limiters
 	mkStack := func(name string, cfg StackCfg, lim func() core.Limit) c17Subject {
 		return c17Subject{name, func() ([]c17Method, func()) {
